@@ -7,8 +7,7 @@ use sourcemap::{DecodedMap, SourceMap};
 
 pub const MAXU: i64 = 2147483647;
 fn qnum(v: &Value) -> u32 {
-    let x = v.as_i64().unwrap();
-    if x == MAXU { u32::MAX } else { x as u32 }
+    crate::maps::u(v)        // same stand-ins as token positions (MAXU, 2^30+1..3)
 }
 
 pub fn ordering_out(sm: &SourceMap) -> Value {
@@ -124,14 +123,17 @@ pub fn run(case: &Value, em: &mut Emitter) {
                         observe(&r, &qs, "rewrite", &how, em);
                     }
                     let mut a = sm.clone();
-                    a.adjust_mappings(sm);
+                    // (a panic inside a producer is data: it is logged as an ordering event the judge rejects)
+                    let r = guard(|| { a.adjust_mappings(sm); json!({"k": "done"}) });
+                    if r["k"] == "panic" { em.emit("ordering", json!({"how": how, "via": "adjust"}), r); return; }
                     observe(&a, &qs, "adjust", &how, em);
                     // the same object queried, then replaced in place, then queried again
                     let mut h = sm.clone();
                     let _ = lookups_out(&h, &qs);
                     let _ = h.tokens().count();
                     let shift = SourceMap::new(None, vec![sourcemap::RawToken { dst_line: 10, dst_col: 2, src_line: 0, src_col: 0, src_id: !0, name_id: !0, is_range: false }], vec![], vec![], None);
-                    h.adjust_mappings(&shift);
+                    let r = guard(|| { h.adjust_mappings(&shift); json!({"k": "done"}) });
+                    if r["k"] == "panic" { em.emit("ordering", json!({"how": how, "via": "lookup-adjust-lookup"}), r); return; }
                     observe(&h, &qs, "lookup-adjust-lookup", &how, em);
                     let h2 = h.clone();
                     observe(&h2, &qs, "clone-after-adjust", &how, em);
@@ -178,7 +180,11 @@ pub fn gen_queries(rng: &mut Rng, toks: &[Value], n: usize) -> Vec<Value> {
         });
     }
     // coordinates never exceed the stand-in for u32::MAX
-    for q in qs.iter_mut() { for k in 0..2 { if q[k].as_i64().unwrap() > MAXU { q[k] = json!(MAXU); } } }
+    // ... and inside the stand-in region (above 2^30) only the stand-ins themselves are meaningful numbers
+    for q in qs.iter_mut() { for k in 0..2 {
+        let x = q[k].as_i64().unwrap();
+        if x > (1 << 30) + 3 { q[k] = json!(MAXU); } else if x < 0 { q[k] = json!(0); }
+    } }
     qs
 }
 
@@ -204,10 +210,20 @@ fn gen_extreme(rng: &mut Rng) -> Value {
         if rng.chance(2, 3) { toks.push(json!([l, MAXU, 0, toks.len(), 0, -1, 0])); }
     }
     if rng.chance(1, 3) { toks.push(json!([MAXU, rng.range(0, 3), 0, toks.len(), 0, -1, 0])); }
+    // positions on either side of the sign bit (stand-ins 2^30+1.. for 2^31-1, 2^31, 2^31+5), also through the producers
+    let signbit = rng.chance(1, 2);
+    if signbit {
+        toks.retain(|t| t[0] != json!(MAXU) && t[1] != json!(MAXU));     // (shifting u32::MAX would leave the u32 range)
+        let l = l0 + rng.range(0, 1);
+        for k in 1..=3 { if rng.chance(2, 3) { toks.push(json!([l, (1i64 << 30) + k, 0, toks.len(), 0, -1, 0])); } }
+        if rng.chance(1, 3) { toks.push(json!([(1i64 << 30) + 2, 4, 0, toks.len(), 0, -1, 0])); }
+    }
     crate::c02::shuffle(rng, &mut toks);
     let mut qs = vec![json!([0, 0]), json!([MAXU, MAXU]), json!([l0, MAXU]), json!([l0 + 1, 0]), json!([l0 + 1, 1]), json!([l0, 60])];
     qs.extend(gen_queries(rng, &toks, 10));
-    json!({"op": "lookup", "toks": toks, "nsrc": 1, "nnm": 0, "how": "new", "qs": qs})
+    let mut m = json!({"op": "lookup", "toks": toks, "nsrc": 1, "nnm": 0, "how": "new", "qs": qs});
+    if signbit { m["producers"] = json!(true); }
+    m
 }
 fn gen_with(rng: &mut Rng, size: usize, with_range: bool) -> Value {
     if !with_range && rng.chance(1, 10) { return gen_run(rng); }
